@@ -102,6 +102,14 @@ def run_case(case):
             nprof += 1
             hist.append("set")
             continue
+        if kind == "zadd":
+            # the impedance object the field was built on is changed in place (another contribution added, as the unit
+            # test forward_wake does): every later answer is for the impedance as it is NOW; the fresh field shares the object
+            rz = gen.rng(op[1])
+            s.imp_add(imp, ((10 ** rz.uniform(-2, 2, N)) * np.exp(1j * rz.uniform(0, 2 * np.pi, N))).astype(np.complex64), 1e12)
+            hist.append("zadd")
+            nprof += 1
+            continue
         if kind in ("wake",) and not case["wakecap"]:
             continue
         arg = op[1] if kind == "csr" else 0.0
@@ -136,10 +144,12 @@ def cases(draw):
     ops = []
     nops = draw(st.integers(2, 40))
     for _ in range(nops):
-        k = draw(st.sampled_from(["set", "set", "wake", "wake", "pad", "csr", "csr"]))
+        k = draw(st.sampled_from(["set", "set", "wake", "wake", "pad", "csr", "csr", "set", "wake", "csr", "zadd"]))
         if k == "set":
             ops.append(["set", draw(st.integers(0, 2)), draw(st.sampled_from(["zero", "impulse", "short", "smooth", "noise"])),
                         float(10 ** draw(st.integers(-3, 3))), draw(st.integers(0, 10000))])
+        elif k == "zadd":
+            ops.append(["zadd", draw(st.integers(0, 10000))])
         elif k == "csr":
             ops.append(["csr", draw(st.sampled_from([0.0, 0.0, 1e9, 1e11]))])
         else:
